@@ -7,6 +7,12 @@ HERE = os.path.dirname(os.path.abspath(__file__))
 
 # property -> (technique, level text, level note, design ref)
 CLAIMED = {
+    "C19": (
+        "runtime algebraic monitor over observed step outputs (step matrix over GF(2) observed on the 64 unit states, linearity monitored on every pair, order of the matrix computed offline ⇒ single cycle of length 2^64−1) + range monitors on generator states that are solved for by GF(2) linear algebra so that a draw consumes a chosen mantissa",
+        "Period: f(0)=0, the observed 64×64 matrix M is invertible, M^(2^64−1)=I and M^((2^64−1)/p)≠I for all seven prime factors p; linearity f(a⊕b)=f(a)⊕f(b) and agreement with M on ≥ 2·10^6 random/structured pairs; f(M⁻¹y)=y on 10^6 outputs; equal seeds ⇒ equal sequences. Ranges: for every one of the 2^23 mantissas a float draw can consume a state is solved for and verified through the real call, then start ≤ sample < end is required for 12 ranges (unit, symmetric, negative, far from zero, one-ulp-wide, tiny, huge) and Bernoulli(p ≤ 0)/(p ≥ 1) never/always; integer ranges whose width fits i32 on random states and states solved to produce extreme low words; disk/ball inside, circle/sphere unit length on random states and on the 2^18 states whose two next draws hit the centre; array/vector/point/tuple distributions equal scalar draws from a cloned generator bit-for-bit.",
+        "The period conclusion is conditional on linearity, which is monitored, not proved. The three-draw system that would put a sphere sample exactly at the centre is inconsistent, so the sphere is driven on random states only.",
+        "DESIGN.md §5 C19",
+    ),
     "C17": (
         "runtime reference-model monitor: f64 Bernstein form and derivative as oracle for eval/fast_eval/tangent; for approximate() the caller-supplied halt closure is harness code whose argument/result log is replayed as a depth-first bisection of [0,1], so the whole recursion tree and every returned point are checked bit-for-bit",
         "Control polygons of six types (f32, Vec2/3, Point2/3, Color4f) over magnitudes 1e-3..1e4 incl. coincident, collinear, repeated and lattice controls: cubic Bézier at parameters from a palette (<0, 0, ±ulp, 1, >1, random, NaN) — both evaluators vs Bernstein (1e-5·max|control|), exact end points at and beyond the ends, control bounding box, tangent vs derivative; splines of 1..8 segments at every join k/n and its two f32 neighbours plus the palette — equals the segment's cubic, passes through every third control point, exact ends, no panic for any t; approximate() with halt ∈ {always, never, NaN-comparison, thresholds}: halt's argument is curve(mid) − chord midpoint, a node is a leaf iff halt said true or the depth bound 10+⌊log2 len⌋ is reached, output = curve points at strictly increasing dyadic parameters + the last control point, bit-for-bit.",
